@@ -172,6 +172,7 @@ func (c *Ctx) flush() {
 	}
 	name := filepath.Join(c.OutDir, fmt.Sprintf("shard_%04d.v", c.shardIdx))
 	var sb strings.Builder
+	sb.WriteString(fmt.Sprintf("(* cases: %d *)\n", len(c.shard)))
 	sb.WriteString("From Typ Require Import " + c.Prop.Module + ".\nLocal Open Scope Z_scope.\n")
 	sb.WriteString("Definition cases : list case := [\n")
 	for i, s := range c.shard {
